@@ -22,6 +22,13 @@ pub trait KKTSolver<T: FloatT>: HasLinearSolverInfo {
     fn verif_c08_kkt_state(&self) -> Option<crate::verif_hooks::c08::KktState<T>> {
         None
     }
+
+    /// verification hook (C11): read-only copy of the private state of a direct LDL
+    /// KKT solver (matrix, every data map, sign vector, work vectors, regulariser).
+    #[cfg(feature = "verif-hooks")]
+    fn verif_view(&self) -> Option<direct::verif_hooks_kkt::KktView<T>> {
+        None
+    }
 }
 
 pub trait HasLinearSolverInfo {
